@@ -686,7 +686,7 @@ func checkCmd(opts *RunOpts, args []string) int {
 	}
 	if run.HRan {
 		_, vl, cv := boundedListVerdict(opts, prop, known, "bounded.history.log", "none.txt", run.HFailing, run.HTotal,
-			"in-memory history on the real machine: states A, B (Multi), C (Removes A); every history of up to 3 Add/Remove mutations; tracking configurations {all states, reordered subset, MaxRecords=2, Changed allow-list, Called block-list, TrackRejected}; queries Active / Inactive / Activated / Deactivated per tracked state, alone, with machine-time-sum ranges and with limit 1; the *Between helpers; Export -> Import on a fresh machine",
+			"in-memory history on the real machine: states A, B (Multi), C (Removes A); every history of up to 3 Add/Remove mutations; tracking configurations {all states, reordered subset, MaxRecords=2, Changed allow-list, Called block-list, TrackRejected}; queries Active / Inactive / Activated / Deactivated per tracked state, alone, with machine-time-sum ranges and with limit 1; the *Between helpers; Export -> Import on a fresh machine; Export from inside final handlers and tracer hooks",
 			"", "break the log (one record per matching transition, in order, tracked times = machine time after it, bounded by MaxRecords) or a query (FindLatest returns precisely the matching records, newest first; *Between helpers agree with the log) or the Export/Import round trip", nil)
 		if vl != "" {
 			violations = append(violations, vl)
